@@ -15,6 +15,8 @@ CLAIM = (
     "properties/methods/constructors < interfaces < _verify); (5) IR constructors and _set_* setters store the same-named parameter and "
     "recompute the id-set from it; (6) interfaces are created exactly under `abstract or has descendants`; (7) chains over OurType in the "
     "second passes are exhaustive."
+    " SKIPS: the loops of the functions in scope have no more `continue`, `break` or in-loop `return` statements than the reference "
+    "read on the unchanged tree (baselines/skips.json): a new skip means elements that were handled are no longer handled."
 )
 NOTE = (
     "Trusted base: recognition of stacking loops by shape (outer loop over types, inner loop over <type>.inheritances). "
@@ -65,6 +67,13 @@ def run(ctx) -> None:
             _check_id_set(ctx, f)
     _check_interfaces(ctx)
     _check_inherit_store(ctx)
+    ctx.rule("SKIPS", "the loops of the functions in scope have no more continue/break/return-in-loop statements than the reference read on the unchanged tree", floor=20)
+    from ..rules import skips as _skips
+    _base = _skips.load_baseline()
+    for _m in ctx.p.modules.values():
+        if _m.name in ("aas_core_codegen.intermediate._hierarchy", "aas_core_codegen.intermediate._translate", "aas_core_codegen.intermediate.construction"):
+            for _f in _m.functions.values():
+                _skips.check_skips(ctx, _f, "SKIPS", _base)
 
 
 def _check_merges(ctx, f) -> None:
